@@ -25,7 +25,7 @@ WALL_LIMIT = {"quick": 1200, "thorough": 5 * 3600}
 PROBES = ["decorated_more_than_once", "hed_string_context_pushed_by_caller", "warnings_off_run", "issue_with_offsets", "sort_checked",
           "json_checked", "entry_string", "entry_sidecar", "entry_table", "direct_format_subtag", "handler_shared_across_entry_points",
           "printable_checked", "warning_issue_seen", "row_string_offsets",
-          "known_offending_fragment_checked", "redecorated_under_row_string"]
+          "known_offending_fragment_checked", "redecorated_under_row_string", "namespaced_schema_string"]
 RULE = ("Each run generates 2-5 annotation fragments (valid, unknown tag, extension, bad unit, empty element, unbalanced "
         "parenthesis, repeated tag, placeholder, bad character), a sidecar and a small table built from them, and a history of "
         "5-16 operations on one ErrorHandler: context pushes/pops, direct format_error_with_context with seeded sub-tag ranges, "
@@ -57,6 +57,7 @@ def _init():
     from hed.errors.error_types import ValidationErrors
     repo = os.environ.get("VERIF_REPO", "/repo")
     schema = load_schema(os.path.join(repo, "hed/schema/schema_data/HED8.3.0.xml"))
+    _W["schema_ns"] = load_schema(os.path.join(repo, "hed/schema/schema_data/HED8.3.0.xml"), schema_namespace="ts:")
     from hed.models.definition_dict import DefinitionDict
     _W["dd"] = DefinitionDict(["(Definition/MyDef/#, (Label/#, Red))", "(Definition/Plain, (Blue))"], schema)
     _W.update(pd=pd, HedString=HedString, TabularInput=TabularInput, Sidecar=Sidecar, schema=schema, HedValidator=HedValidator,
@@ -80,6 +81,13 @@ EXPECT = {"Label/two  words": ("TAG_INVALID", "  "), "Red  /Bloody": ("TAG_INVAL
           "Property/Sensory-property/Sensory-attribute/Visual-attribute/Color/CSS-color/Red-color/Red/Crimson": ("TAG_EXTENSION_INVALID", "Crimson"),
           "Red/Crimson": ("TAG_EXTENSION_INVALID", "Crimson"), "Grren": ("TAG_INVALID", "Grren"), "Label/#": ("PLACEHOLDER_INVALID", "#"),
           "Purple-color/Purple/Deep": ("TAG_EXTENSION_INVALID", "Deep")}
+NS_FRAGS = ["ts:Red", "ts:Event/Fooo/Sensory-event", "ts:Event/Fooo/Bar/Sensory-event", "ts:Train/Maglev", "ts:Label/a$b", "ts:Red/Crimson",
+            "ts:Grren", "ts:Item/Object/Junk", "(ts:Green, ts:Square)", "ts:Item/Fooo/Baar/Object"]
+EXPECT.update({"ts:Event/Fooo/Sensory-event": ("TAG_EXTENSION_INVALID", "Sensory-event"),
+               "ts:Event/Fooo/Bar/Sensory-event": ("TAG_EXTENSION_INVALID", "Sensory-event"), "ts:Train/Maglev": ("TAG_EXTENDED", "/Maglev"),
+               "ts:Label/a$b": ("CHARACTER_INVALID", "$"), "ts:Red/Crimson": ("TAG_EXTENSION_INVALID", "Crimson"),
+               "ts:Grren": ("TAG_INVALID", "Grren"), "ts:Item/Object/Junk": ("TAG_EXTENDED", "/Junk"),
+               "ts:Item/Fooo/Baar/Object": ("TAG_EXTENSION_INVALID", "Object")})
 STRUCT = ["dup", "empty", "paren"]
 
 
@@ -135,9 +143,12 @@ def generate(run_index, seed, tier):
         elif r < 0.3 and depth > 0:
             ops.append(["pop"])
             depth -= 1
-        elif r < 0.55:
+        elif r < 0.5:
             ops.append(["string", g.randrange(len(strings)), g.chance(0.6)])
             n_entry += 1
+        elif r < 0.55:
+            # a string validated against the schema loaded under a namespace prefix (own validator, own handler)
+            ops.append(["ns_string", g.pick([", ", ",", " , "]).join(g.pick(NS_FRAGS) for _ in range(g.randint(1, 3)))])
         elif r < 0.62:
             ops.append(["sidecar"])
             n_entry += 1
@@ -395,6 +406,14 @@ def execute(sc, script=None):
                         probe("row_string_offsets")
                 bag.extend(issues)
                 trace.append([kind, sorted(map(str, map(_loc, issues)))])
+            elif kind == "ns_string":
+                probe("namespaced_schema_string")
+                hs = W["HedString"](op[1], W["schema_ns"])
+                eh2 = EH(check_for_warnings=True)
+                eh2.push_error_context(EC.HED_STRING, hs)
+                for i in W["HedValidator"](W["schema_ns"]).validate(hs, False, error_handler=eh2):
+                    if not _check_issue(W, i, where, viol, probe):
+                        break
             elif kind == "format":
                 hs = W["HedString"](sc["strings"][op[1]], schema)
                 tags = hs.get_all_tags() if hs else []
